@@ -535,13 +535,34 @@ def job_stacked(_arg):
     return rep
 
 
+COLLECT_JOB_FILE = '''"""Job file of the C15 collect check: job(spec) builds tasks t0..tn-1 named spec['names'] with the hard / soft edges of
+spec['edges'] and returns the tasks spec['roots']."""
+import json
+
+from valjean.cosette.task import DelayTask
+
+
+def job(spec):
+    spec = json.loads(spec)
+    tasks = [DelayTask(name, 0) for name in spec['names']]
+    for (i, j), kind in spec['edges']:
+        (tasks[i].depends_on if kind == 'h' else tasks[i].soft_depends_on).add(tasks[j])
+    return [tasks[r] for r in spec['roots']]
+'''
+
+
 # ------------------------------------------------------------------ statistics helpers and collect
 def job_misc(_arg):
     from valjean.cosette.use import Use
     from valjean.cosette.task import DelayTask, close_dependency_graph
-    from valjean.cambronne.common import check_unique_task_names
+    from valjean.cambronne.common import check_unique_task_names, collect_tasks
     from valjean.gavroche.diagnostics.stats import task_stats, test_stats, test_stats_by_labels
+    import json
     rep = Report()
+    jobdir = tempfile.mkdtemp(prefix='vf_c15j_')
+    jobfile = os.path.join(jobdir, 'job_c15.py')
+    with open(jobfile, 'w', encoding='utf-8') as fil:
+        fil.write(COLLECT_JOB_FILE)
     makers = {'task_stats': lambda n, t: task_stats(name=n, tasks=t),
               'test_stats': lambda n, t: test_stats(name=n, tasks=t),
               'by_labels': lambda n, t: test_stats_by_labels(name=n, tasks=t, by_labels=('day',))}
@@ -596,7 +617,21 @@ def job_misc(_arg):
                         raised = True
                     if raised != dup:
                         rep.violate(f'C15|collect|duplicate-names|expected-error={dup}', f'tasks {[names_[i] for i in sorted(reach)]}: ValueError raised={raised}', case, size=n)
+                    # the same through the entry point of the commands: collect_tasks(job file)
+                    spec = json.dumps({'names': names_, 'edges': [(p, k) for p, k in zip(pairs, kinds) if k], 'roots': roots})
+                    try:
+                        got2 = collect_tasks(jobfile, [spec], {})
+                        raised2 = False
+                    except ValueError:
+                        got2, raised2 = [], True
+                    rep.evaluations += 1
+                    if raised2 != dup:
+                        rep.violate(f'C15|collect|job-file|duplicate-names|expected-error={dup}',
+                                    f'collect_tasks: tasks {[names_[i] for i in sorted(reach)]} (job() returns {roots}): ValueError raised={raised2}', case, size=n)
+                    elif not dup and sorted(t.name for t in got2) != sorted(names_[i] for i in reach):
+                        rep.violate('C15|collect|job-file|closure', f'collect_tasks returns {[t.name for t in got2]}, reference {sorted(names_[i] for i in reach)}', case, size=n)
     rep.sample({'collect': {'names': ('x', 'y', 'x'), 'edges': [((1, 0), 'h'), ((2, 1), 's')], 'job returns': (2,)}})
+    shutil.rmtree(jobdir, ignore_errors=True)
     return rep
 
 
